@@ -234,9 +234,12 @@ class Model():
                 f' of model"{self.name}".'
             )
 
-        # First remove all of the associations
-        for association in asset.associations:
-            self.remove_asset_from_association(asset, association)
+        # First remove all of the associations. An asset that is present in
+        # both fields of an association lists it twice, so skip the
+        # associations that were already removed.
+        for association in list(asset.associations):
+            if association in self.associations:
+                self.remove_asset_from_association(asset, association)
 
         # Also remove all of the entry points
         for attacker in self.attackers:
